@@ -268,7 +268,10 @@ func runC38Arms(c *eng.Ctx) {
 		check("Replace", "an invalid target name ends the rule before anything is written", iValid > iTarget && iTarget >= 0 && (iDel < 0 || iValid < iDel) && iValid < iSet, blk, "")
 		check("Replace", "the new value is the replacement template expanded with the match", iRes > iNil && iNil >= 0, blk, "")
 		// Builder.Set with an empty value deletes (C38.R3), so the explicit Del arm is optional; if present it must be well placed
-		hasLenTest := idx(func(s ast.Stmt) bool { is, ok := s.(*ast.IfStmt); return ok && strings.Contains(nodeText(is.Cond), "len(res)") }) >= 0
+		hasLenTest := idx(func(s ast.Stmt) bool {
+			is, ok := s.(*ast.IfStmt)
+			return ok && strings.Contains(nodeText(is.Cond), "len(res)")
+		}) >= 0
 		check("Replace", "an empty new value deletes the target label (explicit Del before the Set, or left to Builder.Set)", iRes >= 0 && (!hasLenTest || iDel > iRes && iDel < iSet), blk, "")
 		check("Replace", "otherwise the target label is set to the new value (last statement of the arm)", iSet == len(body)-1 && iSet >= 0, blk, "")
 		// fast path
